@@ -161,7 +161,19 @@ func (w *Writer) Commit(rs RevSpec) []byte {
 		for i, num := range packed {
 			groups[i%nCont] = append(groups[i%nCont], num)
 		}
-		for _, g := range groups {
+		for gi, g := range groups {
+			if rs.Shuffle != 0 {
+				// members in any order inside their container (the header pairs say where each is;
+				// the index in the cross-reference entry is the position in that header)
+				mr := sim.NewRand(rs.Shuffle ^ uint64(gi+1)*0x9E3779B97F4A7C15)
+				p := mr.Perm(len(g))
+				sh := make([]int, len(g))
+				for i, j := range p {
+					sh[i] = g[j]
+				}
+				g = sh
+				groups[gi] = g
+			}
 			cnum := w.NextNum()
 			var hdr, body bytes.Buffer
 			for idx, num := range g {
